@@ -59,7 +59,7 @@ fn neutral<T: Extreme>() -> f64 {
     }
 }
 
-#[derive(Clone, Debug)]
+#[derive(Clone, Debug, PartialEq)]
 pub enum XOp {
     Add(f64),
     MergeValue(f64),
@@ -249,6 +249,9 @@ pub fn plan(_tier: Tier) -> Plan {
     let mut checks: Vec<Box<dyn Check>> = Vec::new();
     checks.push(Box::new(Bfs::new(XSpec::<Min> { words: words(), _t: PhantomData }, 64)));
     checks.push(Box::new(Bfs::new(XSpec::<Max> { words: words(), _t: PhantomData }, 64)));
+    // the same two specs enumerated independently by stateright (counts and verdicts must agree)
+    checks.push(cross(XSpec::<Min> { words: words(), _t: PhantomData }, 64));
+    checks.push(cross(XSpec::<Max> { words: words(), _t: PhantomData }, 64));
     Plan {
         rule: "values {-inf,-1,-0.0,0.0,5e-324,1,+inf,NaN}; initial states new(), default(), from_value(v) for every non-NaN v, collect (by value and by reference) of every word of length <= 2; operations add(v), merge(from_value(v)), merge(new()), merge(collect(w)), collect(w).merge(self), extend(w) by value and by reference; state = (real object, ghost extreme of the non-NaN observations absorbed); the state space is finite and the BFS reaches its fixpoint, so the verdict covers histories of any length over this alphabet".into(),
         assumptions: common_assumptions(),
